@@ -2794,7 +2794,7 @@ func NewValArg(in []byte) *SQLVal {
 func (node *SQLVal) Format(buf *TrackedBuffer) {
 	switch node.Type {
 	case StrVal:
-		sqltypes.MakeTrusted(sqltypes.VarBinary, node.Val).EncodeSQL(buf)
+		encodeStrVal(buf, node.Val)
 	case IntVal, FloatVal, HexNum:
 		buf.Myprintf("%s", []byte(node.Val))
 	case HexVal:
@@ -2806,6 +2806,25 @@ func (node *SQLVal) Format(buf *TrackedBuffer) {
 	default:
 		panic("unexpected")
 	}
+}
+
+// encodeStrVal writes a quoted string literal using exactly the escapes that
+// Tokenizer.scanString decodes (\' \\ \n); every other byte is written as is.
+func encodeStrVal(buf *TrackedBuffer, val []byte) {
+	buf.WriteByte('\'')
+	for _, ch := range val {
+		switch ch {
+		case '\'':
+			buf.WriteString(`\'`)
+		case '\\':
+			buf.WriteString(`\\`)
+		case '\n':
+			buf.WriteString(`\n`)
+		default:
+			buf.WriteByte(ch)
+		}
+	}
+	buf.WriteByte('\'')
 }
 
 func (node *SQLVal) walkSubtree(visit Visit) error {
